@@ -29,6 +29,7 @@ def run(repo, chk):
     rule_a(repo, chk)
     rule_b(repo, chk)
     rule_c_d(repo, chk)
+    rule_cmds(repo, chk)
 
 
 def rule_a(repo, chk):
@@ -168,6 +169,31 @@ def rule_c_d(repo, chk):
     consts = [n.value for n in ast.walk(st.node) if isinstance(n, ast.Constant) and isinstance(n.value, str) and n.value != tmpl]
     chk.ob('d', st.ref, 'no other constant of the serialiser contains a line break', not any('\r' in c or '\n' in c for c in consts), loc(st, st.node),
            discr='no-other-breaks')
+
+
+def rule_cmds(repo, chk):
+    """Every IRC command constructor builds its line through Message (and therefore through the check), and the
+    protocol writes bytes(message) — the serialiser — never a hand-formatted line."""
+    chk.rule('C18.e', 'every IRC command constructor returns request(Message(...)); the protocol writes bytes(message)')
+    m = repo.module('circuits/protocols/irc/commands.py')
+    n_cmds = 0
+    for f in m.functions.values():
+        if f.name.startswith('_'):
+            continue
+        n_cmds += 1
+        rets = [n for n in walk_no_defs(f.node) if isinstance(n, ast.Return)]
+        ok = bool(rets) and all(isinstance(r.value, ast.Call) and call_name(r.value) == 'request' and r.value.args and isinstance(r.value.args[0], ast.Call)
+                                and call_name(r.value.args[0]) == 'Message' for r in rets)
+        # arguments are passed on unmodified (no pre-formatting that could hide a line break in a constant)
+        consts = [c.value for r in rets for c in ast.walk(r) if isinstance(c, ast.Constant) and isinstance(c.value, str)]
+        ok = ok and not any('\r' in c or '\n' in c for c in consts)
+        chk.ob('e', f.ref, 'the command is built by Message(...) from its arguments', ok, loc(f, f.node), discr=f'ctor:{f.name}')
+    need(n_cmds >= 15, f'C18.e: only {n_cmds} IRC command constructors found, 20 confirmed by hand')
+    p = repo.func('circuits/protocols/irc/protocol.py', 'IRC.request')
+    chk.touch(p)
+    ws = [c for c, _r, e in pat.fire_calls(p.node) if pat.event_ctor_name(e) == 'write']
+    ok = bool(ws) and all(src(c.args[0].args[0]) == f'bytes({p.params[2]})' for c in ws)
+    chk.ob('e', p.ref, 'the protocol writes the serialised message (bytes(message)) and nothing else', ok, loc(p, p.node), discr='writes-serialised')
 
 
 def _fields_of(func, e):
